@@ -26,7 +26,14 @@ FS_FAULTS = {
     "dot-fifo": ".fifo",
     "dot-socket": ".socket",
     "dot-symlink-loop": ".loop",
+    # names that mean something to %-formatting, str.format, shells and globbing: the unservable
+    # entry's name travels through error messages and log lines
+    "percent-dangling-symlink": "50% off",
+    "format-fifo": "a%sb%(k)d{0}{x}",
+    "glob-socket": "*[a-z]?$HOME`id`",
+    "percent-symlink-loop": "100%",
 }
+NAME_PREFIXES = ("dot-", "percent-", "format-", "glob-")
 INJECTED = ["vanished-after-enumeration", "stat-ENOENT", "stat-EACCES"]
 HEALTHY = ["alpha.txt", "beta.html", "gamma", "delta.gif", "epsilon.txt", "zeta", "eta.txt", "theta.pdf"]
 
@@ -48,7 +55,9 @@ def add_fault(t: Tree, kind: str, pos_name: str) -> str:
     name = pos_name + FS_FAULTS[kind]
     if kind.startswith("dot-"):
         name = FS_FAULTS[kind] + pos_name     # must keep its leading dot
-        kind = kind[4:]
+    for pre in NAME_PREFIXES:
+        if kind.startswith(pre):
+            kind = kind[len(pre):]
     if kind == "dangling-symlink":
         t.symlink(name, "does-not-exist-anywhere")
     elif kind == "symlink-loop":
@@ -105,8 +114,9 @@ def listing_entries(chk, site, view, sel):
 
 
 def run_case(chk: Check, sc: Scratch, idx: int, handlers, hl_name: str, nhealthy: int, faults: typing.List[typing.Tuple[str, str]],
-             depth: bytes) -> None:
-    """faults: [(kind, position prefix)]"""
+             depth: bytes, linkmode: typing.Optional[str] = None) -> None:
+    """faults: [(kind, position prefix)]; linkmode: a UMN link file in the directory also names
+    the faulty entries -- 'hide' (Type=X), 'rename' (Name=) or 'number' (Numb=)"""
     healthy = HEALTHY[:nhealthy]
     root = sc.sub("f%d" % idx)
     twin = sc.sub("t%d" % idx)
@@ -127,6 +137,12 @@ def run_case(chk: Check, sc: Scratch, idx: int, handlers, hl_name: str, nhealthy
             t.file(n, "cannot be inspected\n")
             inj.stat_errors[os.path.join(dfs, n.encode())] = errno.ENOENT if kind == "stat-ENOENT" else errno.EACCES
             faulty_names.append(n)
+    if linkmode:
+        stanzas = []
+        for n in faulty_names:
+            extra = {"hide": "Type=X\n", "rename": "Name=Renamed %s\n" % n.strip("."), "number": "Numb=1\n"}[linkmode]
+            stanzas.append("Path=./%s\n%s" % (n, extra))
+        t.file(".names", "\n".join(stanzas))
     full, fulltwin = Tree(), Tree()
     if depth:
         full.subtree(depth, t)
@@ -152,7 +168,7 @@ def run_case(chk: Check, sc: Scratch, idx: int, handlers, hl_name: str, nhealthy
     site = driver.Site(root, handlers=handlers)
     inj.install()
     try:
-        kinds = "+".join(sorted(k for k, _ in faults))
+        kinds = "+".join(sorted(k for k, _ in faults)) + ("+linkfile-" + linkmode if linkmode else "")
         for view in VIEWS:
             ents, resp, v = listing_entries(chk, site, view, sel)
             sample = {"handler": hl_name, "dir": sel, "faults": faults, "healthy": healthy, "view": view,
@@ -171,7 +187,7 @@ def run_case(chk: Check, sc: Scratch, idx: int, handlers, hl_name: str, nhealthy
         if (inj.phantoms or inj.stat_errors) and inj.hits == 0:
             chk.note_inconclusive("fault injection hooks were never reached")
         chk.case((hl_name, kinds, tuple(p for _, p in faults), nhealthy, bool(depth)),
-                 {"handler": hl_name, "dir": sel, "faults": faults, "healthy": nhealthy, "views": len(VIEWS)}
+                 {"handler": hl_name, "dir": sel, "faults": faults, "healthy": nhealthy, "views": len(VIEWS), "linkfile": linkmode}
                  if idx % 37 == 0 else None)
     finally:
         inj.remove()
@@ -194,8 +210,14 @@ def main() -> int:
                 for pos in positions:
                     for nh in ([1, 4, 8] if not quick else [1, 5]):
                         depth = b"" if (idx % 3) else b"sub/dir"
-                        run_case(chk, sc, idx, hl, hl_name, nh, [(kind, pos)], depth)
-                        idx += 1
+                        modes = [None]
+                        if hl_name == "umn":
+                            modes = [None, "hide", "rename", "number"]
+                            if quick:
+                                modes = [modes[(idx // 3) % 4]]
+                        for lm in modes:
+                            run_case(chk, sc, idx, hl, hl_name, nh, [(kind, pos)], depth, lm)
+                            idx += 1
             # pairs of faulty entries: all pairs of positions for every pair of kinds (thorough) / two kinds (quick)
             pair_kinds = list(itertools.combinations(kinds, 2)) if not quick else \
                 [("dangling-symlink", "fifo"), ("name-dotdot", "stat-EACCES"), ("vanished-after-enumeration", "socket")]
@@ -209,7 +231,9 @@ def main() -> int:
              "must equal the listing of a twin directory holding only the healthy entries. Fault kinds: dangling and "
              "self-referential symlink, FIFO, UNIX socket, names containing '..', '.\\\\' and '\\\\\\\\', an entry that "
              "vanishes between enumeration and inspection (interposed os.listdir), stat failing with ENOENT/EACCES "
-             "(interposed os.stat); singles at 4 positions, and pairs",
+             "(interposed os.stat), and the file-system kinds again under names containing %-format, str.format, "
+             "shell and glob syntax; singles at 4 positions, and pairs; under the UMN handler also with a link file "
+             "in the directory whose stanzas (hide / rename / number) name the faulty entries",
         assumptions=["faults are injected by interposing os.listdir/os.stat in the harness process (hit counter checked)"],
         exhaustive=True)
 
